@@ -180,8 +180,12 @@ def _evict_cache(keep=int(os.environ.get("VERIF_CACHE_KEEP", "6"))):
         ents = [os.path.join(CACHE, e) for e in os.listdir(CACHE)]
         ents = [e for e in ents if os.path.isdir(e)]
         ents.sort(key=lambda e: os.path.getmtime(e), reverse=True)
+        # a directory used during the last hours may belong to a check that is still running (its binaries are executed
+        # again and again, libFuzzer's fork mode even re-executes itself): only older ones are removed
+        now = time.time()
         for e in ents[keep:]:
-            shutil.rmtree(e, ignore_errors=True)
+            if now - os.path.getmtime(e) > 6 * 3600:
+                shutil.rmtree(e, ignore_errors=True)
     except OSError:
         pass
 
